@@ -1,5 +1,6 @@
 import GrmVerif.Lemmas.Search
 import GrmVerif.Lemmas.RankImpl2
+import GrmVerif.Lemmas.SearchImpl7
 /-!
 # C06 — repair sequences are the complete minimum-cost set, ranked as documented
 
@@ -15,6 +16,15 @@ and `simplify_repairs` of `lrpar/src/lib/cpctplus.rs`): the second half of this 
 EVERY output of `collect_repairs` (a list of groups of sequences), every table, every hasher order
 and every `%avoid_insert` set, what the reported list looks like: `rank_keeps_furthest`,
 `simplify_no_trailing_shift`, `simplify_nodup`, `simplify_preserves`, `simplify_ranked`.
+
+The search itself (`Model/SearchImpl.lean`, a transcription of `dijkstra.rs` and of `recover` /
+`insert` / `delete` / `shift` / `collect_repairs` of `cpctplus.rs`: cost buckets, `IndexMap` buckets
+with `PathFNode::eq` as key equality, node merging, the two loops, `u16` costs): the third part of this
+file proves, for EVERY table, stack, input, cost function (costs ≥ 1) and cost — no cap —, that when
+the modelled search ends properly its expansion is sound (`search_sound`), of minimum cost
+(`search_minimal`), complete at that cost although compatible nodes are merged and the second loop
+follows Shifts only (`search_complete`), finds nothing only if nothing of representable cost exists
+(`search_none`), and equals the reference enumeration (`search_eq_reference`).
 -/
 namespace GrmVerif.C06
 open GrmVerif Rec LR
@@ -355,6 +365,282 @@ theorem postProcess_eq (hs : List Seq → List Seq) (h : HashSetLike hs) (avoid 
       simp only [Option.some.injEq] at hp
       exact hp.symm
 
+/-! ## The search: `dijkstra` with node merging, `collect_repairs` -/
+
+open SearchImpl
+
+/-- **(a) Soundness of the modelled search.** Hypotheses (`Hyps`): every token costs at least 1
+(`parse_actions` asserts `token_cost(tidx) > 0`); the table never shifts the end-of-input token (true
+of every table `StateTable::new` builds); the error position is inside the input; `state_actions(st)`
+lists exactly the tokens whose action in `st` is not Error (`C16.state_actions_spec`); the error
+configuration is not itself a success (`recover` is called when the action on the next token is
+Error). No hypothesis on `u16` overflow is needed: a neighbour whose cost is not representable is
+dropped, and every statement below is about costs the search did represent. If the model of
+`dijkstra` ends properly (`.ok res`: enough fuel, no panic) then ALL returned nodes have the same cost
+`c` — the bucket at which the search stopped —, and every sequence `collect_repairs` expands from
+them (`traverse`) is a sequence of the declarative search relation `Rec.Search` of cost exactly `c`:
+by `search_sequence_valid` it applies from the error configuration with plain LR semantics, costs
+`c`, never inserts end-of-input and ends in a success configuration. -/
+theorem search_sound (E : Env) (start : Pos) (H : Hyps E start) (fuel : Nat) (res : List PNode)
+    (h : dijkstra E fuel start = .ok res) :
+    ∃ c, c ≤ U16MAX ∧ (∀ m ∈ res, m.cf = c) ∧
+      ∀ m ∈ res, ∀ s ∈ traverse m.repairs, Search E.G E.A E.w E.cost E.N ⟨start, [], 0⟩ c s := by
+  by_cases hne : res = []
+  · subst hne
+    exact ⟨0, Nat.zero_le _, fun m hm => (by cases hm), fun m hm => (by cases hm)⟩
+  · obtain ⟨c, hf⟩ := found_of_dijkstra H h hne
+    exact ⟨c, hf.bound, hf.cost, hf.sound⟩
+
+/-- **(b) Minimality.** Under the hypotheses of `search_sound`: no repair sequence of the declarative
+search has a cost below the cost of a returned node. -/
+theorem search_minimal (E : Env) (start : Pos) (H : Hyps E start) (fuel : Nat) (res : List PNode)
+    (h : dijkstra E fuel start = .ok res) :
+    ∀ m ∈ res, ∀ c', c' < m.cf → ∀ seq, ¬ Search E.G E.A E.w E.cost E.N ⟨start, [], 0⟩ c' seq := by
+  intro m hm c' hc' seq
+  have hne : res ≠ [] := by intro e; rw [e] at hm; cases hm
+  obtain ⟨c, hf⟩ := found_of_dijkstra H h hne
+  rw [hf.cost m hm] at hc'
+  exact hf.minimal c' hc' seq
+
+/-- **(c) Completeness: merging loses nothing.** Under the hypotheses of `search_sound`: every repair
+sequence of the declarative search whose cost is the cost of the returned nodes occurs in the
+expansion of some returned node. The proof (`Lemmas/SearchImpl3–5.lean`) rests on: nodes that
+`PathFNode::eq` identifies have the same stack, position, number of trailing shifts and "last repair
+is a Delete" flag, so every edge of the search graph out of one plain sequence of a (merged) node is
+an edge out of all of them and appears among the node's neighbours (`neighbours_complete_step`); the
+merge closure makes the kept chain stand for the union of both sets of sequences
+(`mergeRepairs_spec`, `upsert_spec`); a node pushed after a compatible one was popped simply becomes a
+new entry and is explored again; and the second loop, which follows Shifts of the same cost only,
+misses nothing because Inserts and Deletes cost at least 1 (`expand_tracks`). -/
+theorem search_complete (E : Env) (start : Pos) (H : Hyps E start) (fuel : Nat) (res : List PNode)
+    (h : dijkstra E fuel start = .ok res) :
+    ∀ m ∈ res, ∀ seq, Search E.G E.A E.w E.cost E.N ⟨start, [], 0⟩ m.cf seq →
+      ∃ m' ∈ res, seq ∈ traverse m'.repairs := by
+  intro m hm seq hs
+  have hne : res ≠ [] := by intro e; rw [e] at hm; cases hm
+  obtain ⟨c, hf⟩ := found_of_dijkstra H h hne
+  rw [hf.cost m hm] at hs
+  exact hf.complete seq hs
+
+/-- **Nodes that `PathFNode::eq` identifies have the same continuations** (the fact that makes merging
+sound). For any two search nodes that `PathFNode::eq` regards as equal (same stack, same position,
+both-or-neither last repair a Delete, the same number of trailing Shifts) and that cost the same (as
+two nodes of one bucket do): the `success` closure answers the same for both, and the `neighbours`
+closure produces for both — in the same order, with either value of `explore_all` — neighbours with
+the same cost, stack and position, made by appending the same repair to the node's own chain (or
+keeping the chain, for the accept-after-reductions node); it panics or runs out of fuel for both or
+for neither. Hence whatever suffix leads one of them to a success node at some extra cost leads the
+other there too. -/
+theorem compatible_same_continuations (E : Env) (a b : PNode) (hc : compat a b = true)
+    (hcf : a.cf = b.cf) (exploreAll : Bool) :
+    success E a = success E b ∧
+      outShape a.repairs (neighbours E exploreAll a) = outShape b.repairs (neighbours E exploreAll b) :=
+  compat_same_continuations hc hcf exploreAll
+
+/-- **Merging makes the kept node stand for both nodes.** When the merge closure of `recover` merges
+the chain `new` into the chain `old` (neither containing the bare `Terminator` as an alternative, `new`
+not being it), `collect_repairs` expands from the result exactly the sequences it would have expanded
+from `old` together with those from `new`; the result is again free of bare `Terminator`
+alternatives. (The search only ever merges such chains: `upsert_spec`, `term_of_compat`.) -/
+theorem merge_is_union (old new r : RTree) (h : mergeRepairs old new = some r)
+    (ho : okT old = true) (hn : okT new = true) (hnt : isTerm new = false) :
+    okT r = true ∧ isTerm r = false ∧
+      ∀ s, s ∈ traverse r ↔ s ∈ traverse old ∨ s ∈ traverse new := by
+  obtain ⟨_, _, m3, m4, m5⟩ := mergeRepairs_spec h
+  have hot : isTerm old = false := by
+    cases old with
+    | term =>
+      unfold mergeRepairs at h
+      by_cases hb : RTree.beq .term new = true
+      · have := beq_eq _ _ hb
+        subst this
+        simp [isTerm] at hnt
+      · rw [if_neg hb] at h; cases h
+    | rep p r0 => rfl
+    | merge p r0 v => rfl
+  have hr : okT r = true := m4 ho hn (fun e => by rw [hnt] at e; cases e)
+  refine ⟨hr, by rw [m5, hot], ?_⟩
+  intro s
+  rw [traverse_eq r hr, traverse_eq old ho, traverse_eq new hn, m5, hot, hnt]
+  simp only [Bool.false_eq_true, ↓reduceIte]
+  exact m3 s
+
+/-- **No nodes only if no repair of representable cost exists.** Under the hypotheses of
+`search_sound`: if the search returns no node (`return Vec::new()`: it ran out of buckets or of
+representable costs) then no repair sequence of cost `≤ u16::MAX` exists. -/
+theorem search_none (E : Env) (start : Pos) (H : Hyps E start) (fuel : Nat)
+    (h : dijkstra E fuel start = .ok []) :
+    ∀ c, c ≤ U16MAX → ∀ seq, ¬ Search E.G E.A E.w E.cost E.N ⟨start, [], 0⟩ c seq :=
+  none_of_dijkstra H h
+
+/-- **(d) The modelled search computes the reference set — for every cost.** Under the hypotheses of
+`search_sound`: if the search returns nodes, their common cost `c` and the union of their expansions
+are exactly what the verified reference enumeration `minCostRepairs` answers for ANY cap `≥ c`; every
+returned node contributes at least one sequence. -/
+theorem search_eq_reference (E : Env) (start : Pos) (H : Hyps E start) (fuel : Nat) (res : List PNode)
+    (h : dijkstra E fuel start = .ok res) (hne : res ≠ []) :
+    ∃ c, (∀ m ∈ res, m.cf = c ∧ traverse m.repairs ≠ []) ∧ ∀ cap, c ≤ cap →
+      ∃ rs, minCostRepairs E.G E.A E.w E.cost E.N start cap = some (c, rs) ∧
+        ∀ seq, seq ∈ rs ↔ ∃ m ∈ res, seq ∈ traverse m.repairs := by
+  obtain ⟨c, hf⟩ := found_of_dijkstra H h hne
+  exact ⟨c, fun m hm => ⟨hf.cost m hm, hf.nonempty m hm⟩, fun cap hcap => reference_of_found hf hne cap hcap⟩
+
+/-- **(d) The whole modelled `recover` reports the reference answer — for every cost, no cap.**
+Under the hypotheses of `search_sound`, for any `HashSet` order `hs`, and when every candidate sequence
+ends inside the window `rank_cnds` parses on in (`WithinWindow`; e.g. `withinWindow_of_short`: the input
+ends inside it): if `recoverImpl` (search with node merging, `collect_repairs`, `rank_cnds`,
+`simplify_repairs`) ends properly with the list `out`, then
+* `out` is empty only if no repair sequence of representable cost exists;
+* otherwise, for the cost `c` of the search and ANY cap `≥ c`, the reference `refRepairs` answers `c`
+  with a set `rs` that is exactly the set of the reported sequences (lexemes forgotten), and every
+  reported sequence names the input's lexemes from the error position on, in order — so it is
+  determined by its image in `rs`.
+`rank_cnds` replays only the first sequence of every group: that is enough because all sequences of a
+returned (possibly merged) node let parsing continue equally far (`distance_of_resOK`). The order of
+`out` is described by `simplify_ranked`, its lack of duplicates by `simplify_nodup`. -/
+theorem recover_eq_reference (E : Env) (start : Pos) (H : Hyps E start) (hs : List Seq → List Seq)
+    (hhs : HashSetLike hs) (avoid : Nat → Bool) (lexStart : Nat → Nat) (win : Nat)
+    (hwin : WithinWindow E start win) (fuel : Nat) (c' : Pos) (out : List Seq)
+    (h : recoverImpl E hs avoid lexStart win fuel start = .ok (c', out)) :
+    (out = [] → ∀ c, c ≤ U16MAX → ∀ seq, ¬ Search E.G E.A E.w E.cost E.N ⟨start, [], 0⟩ c seq) ∧
+    (out ≠ [] → ∃ c, ∀ cap, c ≤ cap →
+      ∃ rs, refRepairs E.G E.A E.w E.cost E.N win start cap = some (c, rs) ∧
+        (∀ r, r ∈ rs ↔ ∃ s ∈ out, s.map PRepair.erase = r) ∧
+        ∀ s ∈ out, WellLexed start.pos s = true) := by
+  unfold recoverImpl at h
+  cases hd : dijkstra E fuel start with
+  | panic => rw [hd] at h; cases h
+  | fuelOut => rw [hd] at h; cases h
+  | ok res =>
+    rw [hd] at h
+    simp only at h
+    cases res with
+    | nil =>
+      simp only [recoverTail, Out.ok.injEq, Prod.mk.injEq] at h
+      obtain ⟨_, rfl⟩ := h
+      exact ⟨fun _ => search_none E start H fuel hd, fun hne => absurd rfl hne⟩
+    | cons cnd cnds =>
+      have hne : cnd :: cnds ≠ [] := by simp
+      obtain ⟨c, hf⟩ := found_of_dijkstra H hd hne
+      simp only [recoverTail] at h
+      cases hrk : rankCnds E.G E.A E.w win start (collectRepairs start.pos (cnd :: cnds)) with
+      | none => rw [hrk] at h; cases h
+      | some kept =>
+        rw [hrk] at h
+        simp only at h
+        obtain ⟨hall, _, hmem⟩ := rank_keeps_furthest E.G E.A E.w win start _ kept hrk
+        rw [collectRepairs_eq] at hall hmem
+        -- the distance `rank_cnds` measures for the group of a node
+        have hreach : ∀ m ∈ cnd :: cnds,
+            reachD E.G E.A E.w win start (groupOf start m) = nodeDist E start win m := by
+          intro m hm
+          obtain ⟨d, hd'⟩ := hall (groupOf start m) (List.mem_map.mpr ⟨m, hm, rfl⟩)
+          exact reachD_group H hwin hf hm hd'
+        have hkept : ∀ s, s ∈ kept ↔ ∃ m ∈ cnd :: cnds, (∃ seq ∈ traverse m.repairs, s = attach start.pos seq) ∧
+            ∀ m' ∈ cnd :: cnds, nodeDist E start win m' ≤ nodeDist E start win m := by
+          intro s
+          rw [hmem s]
+          constructor
+          · rintro ⟨g, hg, hsg, hmax⟩
+            obtain ⟨m, hm, rfl⟩ := List.mem_map.mp hg
+            obtain ⟨seq, hseq, rfl⟩ := List.mem_map.mp hsg
+            refine ⟨m, hm, ⟨seq, hseq, rfl⟩, ?_⟩
+            intro m' hm'
+            have := hmax (groupOf start m') (List.mem_map.mpr ⟨m', hm', rfl⟩)
+            rw [hreach m hm, hreach m' hm'] at this
+            exact this
+          · rintro ⟨m, hm, ⟨seq, hseq, rfl⟩, hmax⟩
+            refine ⟨groupOf start m, List.mem_map.mpr ⟨m, hm, rfl⟩, List.mem_map.mpr ⟨seq, hseq, rfl⟩, ?_⟩
+            intro g' hg'
+            obtain ⟨m', hm', rfl⟩ := List.mem_map.mp hg'
+            rw [hreach m hm, hreach m' hm']
+            exact hmax m' hm'
+        -- something is kept
+        have hkne : kept.isEmpty = false := by
+          obtain ⟨m, hm, hmax⟩ := exists_max (nodeDist E start win) (cnd :: cnds) hne
+          obtain ⟨s0, hs0⟩ := List.exists_mem_of_ne_nil _ (hf.nonempty m hm)
+          have : attach start.pos s0 ∈ kept := (hkept _).mpr ⟨m, hm, ⟨s0, hs0, rfl⟩, hmax⟩
+          cases hk : kept with
+          | nil => rw [hk] at this; cases this
+          | cons a as => rfl
+        rw [hkne] at h
+        simp only [Bool.false_eq_true, ↓reduceIte] at h
+        cases hsim : simplify hs avoid lexStart kept with
+        | nil => rw [hsim] at h; cases h
+        | cons s0 rest =>
+          rw [hsim] at h
+          simp only at h
+          cases hap : applyRepairs E.G E.A E.w start s0 with
+          | none => rw [hap] at h; cases h
+          | some cfin =>
+            rw [hap] at h
+            simp only [Out.ok.injEq, Prod.mk.injEq] at h
+            obtain ⟨_, hout⟩ := h
+            have hmo : ∀ x, x ∈ out ↔ ∃ s ∈ kept, stripTrailing s = x := by
+              intro x
+              rw [← hout, ← hsim]
+              exact mem_simplify hhs avoid lexStart kept x
+            refine ⟨fun e => (by rw [← hout] at e; cases e), fun _ => ⟨c, ?_⟩⟩
+            intro cap hcap
+            obtain ⟨rs0, hmc, hrs⟩ := reference_of_found hf hne cap hcap
+            -- distances of the reference sequences
+            have hdist : ∀ m ∈ cnd :: cnds, ∀ seq ∈ traverse m.repairs,
+                distance E.G E.A E.w win start seq = nodeDist E start win m := by
+              intro m hm seq hseq
+              rw [traverse_of_resOK H (hf.resOK m hm)] at hseq
+              exact (distance_of_resOK (hf.resOK m hm) hseq).1
+            have hfar : ∀ m ∈ cnd :: cnds,
+                (nodeDist E start win m = (rs0.map (distance E.G E.A E.w win start)).foldl max 0 ↔
+                  ∀ m' ∈ cnd :: cnds, nodeDist E start win m' ≤ nodeDist E start win m) := by
+              intro m hm
+              obtain ⟨sm, hsm⟩ := List.exists_mem_of_ne_nil _ (hf.nonempty m hm)
+              have hsm0 : sm ∈ rs0 := (hrs sm).mpr ⟨m, hm, hsm⟩
+              have hge : nodeDist E start win m ≤ (rs0.map (distance E.G E.A E.w win start)).foldl max 0 := by
+                rw [← hdist m hm sm hsm]
+                exact foldl_max_ge _ 0 _ (List.mem_map.mpr ⟨sm, hsm0, rfl⟩)
+              constructor
+              · intro e m' hm'
+                obtain ⟨s', hs'⟩ := List.exists_mem_of_ne_nil _ (hf.nonempty m' hm')
+                rw [e, ← hdist m' hm' s' hs']
+                exact foldl_max_ge _ 0 _ (List.mem_map.mpr ⟨s', (hrs s').mpr ⟨m', hm', hs'⟩, rfl⟩)
+              · intro hmax
+                refine Nat.le_antisymm hge ?_
+                refine foldl_max_le _ 0 _ (Nat.zero_le _) ?_
+                intro x hx
+                obtain ⟨s', hs', rfl⟩ := List.mem_map.mp hx
+                obtain ⟨m', hm', hs''⟩ := (hrs s').mp hs'
+                rw [hdist m' hm' s' hs'']
+                exact hmax m' hm'
+            simp only [refRepairs, hmc]
+            refine ⟨_, rfl, ?_, ?_⟩
+            · intro r
+              rw [Rec.mem_dedup]
+              simp only [List.mem_map, List.mem_filter, beq_iff_eq]
+              constructor
+              · rintro ⟨seq, ⟨hseq, hd'⟩, rfl⟩
+                obtain ⟨m, hm, hsm⟩ := (hrs seq).mp hseq
+                have hmax := (hfar m hm).mp (by rw [← hdist m hm seq hsm]; exact hd')
+                refine ⟨stripTrailing (attach start.pos seq), (hmo _).mpr ⟨_, (hkept _).mpr ⟨m, hm, ⟨seq, hsm, rfl⟩, hmax⟩, rfl⟩, ?_⟩
+                rw [map_erase_stripTrailing, erase_map_attach]
+              · rintro ⟨s, hso, rfl⟩
+                obtain ⟨s1, hs1, rfl⟩ := (hmo s).mp hso
+                obtain ⟨m, hm, ⟨seq, hseq, rfl⟩, hmax⟩ := (hkept s1).mp hs1
+                refine ⟨seq, ⟨(hrs seq).mpr ⟨m, hm, hseq⟩, ?_⟩, ?_⟩
+                · rw [hdist m hm seq hseq]; exact (hfar m hm).mpr hmax
+                · rw [map_erase_stripTrailing, erase_map_attach]
+            · intro s hso
+              obtain ⟨s1, hs1, rfl⟩ := (hmo s).mp hso
+              obtain ⟨m, hm, ⟨seq, hseq, rfl⟩, _⟩ := (hkept s1).mp hs1
+              exact wellLexed_stripTrailing (wellLexed_attach _ _)
+
+/-- **The hypotheses of the search theorems are decidable** (and the driver evaluates them for every
+reported error): if every token costs at least 1 and the Boolean `checkHyps` holds — no state shifts
+end-of-input, `state_actions` of every state lists exactly the tokens with a non-Error action, the
+error position is inside the input, the error configuration is not a success — then `Hyps` holds. -/
+theorem hyps_decidable (E : Env) (start : Pos) (hcost : ∀ t, 1 ≤ E.cost t)
+    (h : checkHyps E start = true) : Hyps E start :=
+  hyps_of_check hcost h
+
 /-! Tests: the hypotheses are satisfiable, the model computes, and the hypothesis of the second part
 of `simplify_ranked` is needed. -/
 example : HashSetLike dedup := hashSetLike_dedup
@@ -389,5 +675,48 @@ example : simplify dedup (fun t => t == 7) (fun i => 3 * i + 1)
     [[.insert 1], [.delete 4], [.insert 2, .insert 3], [.insert 3, .insert 2], [.insert 7]] := by decide
 example : simplify dedup (fun _ => false) (fun _ => 0) [[.delete 0], [.delete 1]] ≠
     simplify dedup (fun _ => false) (fun _ => 0) [[.delete 1], [.delete 0]] := by decide
+
+/-! Tests for the search theorems: a concrete instance satisfies `Hyps`, the modelled search ends
+properly on it, and it merges nodes. -/
+
+/-- `S: T 'd' 'c'; T: 'a' | 'b'` (tokens a b c d = 0 1 2 3, end-of-input = 4; rules ^ S T = 0 1 2;
+productions 0 = S → T d c, 1 = T → a, 2 = T → b, 3 = ^ → S) -/
+def mG : Grammar := ⟨5, 3, 4, 3, [(1, [.rule 2, .tok 3, .tok 2]), (2, [.tok 0]), (2, [.tok 1]), (0, [.rule 1])], [], []⟩
+def mSt (actions : List Act) (gotos : List (Option Nat)) (sa : List Nat) : StateD :=
+  ⟨[], [], [], actions, gotos, sa, [], [], false⟩
+def mA : Automaton :=
+  ⟨0, [mSt [.shift 1, .shift 2, .error, .error, .error] [none, some 3, some 4] [0, 1],
+       mSt [.error, .error, .error, .reduce 1, .error] [none, none, none] [3],
+       mSt [.error, .error, .error, .reduce 2, .error] [none, none, none] [3],
+       mSt [.error, .error, .error, .error, .accept] [none, none, none] [4],
+       mSt [.error, .error, .error, .shift 5, .error] [none, none, none] [3],
+       mSt [.error, .error, .shift 6, .error, .error] [none, none, none] [2],
+       mSt [.error, .error, .error, .error, .reduce 0] [none, none, none] [4]], [], []⟩
+def mE : Env := ⟨mG, mA, [2], fun _ => 1, 3⟩
+/-- input `c`: the error is at the first lexeme in the start state. The two minimum-cost repairs `Insert b,
+Insert d` and `Insert a, Insert d` reach the same stack at the same position: the second node is MERGED
+into the first (one returned node, two sequences) -/
+example : (match dijkstra mE 100 ⟨[0], 0⟩ with
+    | .ok l => l.map (fun (n : PNode) => (n.cf, traverse n.repairs))
+    | _ => []) = [(2, [[.insert 1, .insert 3, .shift], [.insert 0, .insert 3, .shift]])] := by decide +kernel
+
+/-- the hypotheses of the search theorems hold of this instance (through the decidable check) -/
+example : Hyps mE ⟨[0], 0⟩ := hyps_decidable mE _ (fun _ => Nat.le_refl _) (by decide +kernel)
+example : checkHyps mE ⟨[0], 0⟩ = true := by decide +kernel
+/-- the window hypothesis of `recover_eq_reference` holds of this instance (the input is shorter than
+the window) -/
+example : WithinWindow mE ⟨[0], 0⟩ 250 := withinWindow_of_short (by decide) (by decide)
+/-- the whole modelled `recover` on this instance: both repairs are reported, trailing Shifts
+stripped, in content order; parsing continues after `Insert a, Insert d` -/
+example : (match recoverImpl mE dedup (fun _ => false) (fun i => 3 * i + 1) 250 100 ⟨[0], 0⟩ with
+    | .ok (c', out) => some (c'.stack, c'.pos, out)
+    | _ => none) = some ([5, 4, 0], 0, [[.insert 0, .insert 3], [.insert 1, .insert 3]]) := by decide +kernel
+/-- … and it is what the reference answers -/
+example : refRepairs mE.G mE.A mE.w mE.cost mE.N 250 ⟨[0], 0⟩ 2 =
+    some (2, [[.insert 0, .insert 3], [.insert 1, .insert 3]]) := by decide +kernel
+
+/-- the merge closure on two chains: the result expands to both sequences, the kept node's first -/
+example : (mergeRepairs (.rep (.rep .term (.insert 1)) (.insert 3)) (.rep (.rep .term (.insert 0)) (.insert 3))).map
+    traverse = some [[.insert 1, .insert 3], [.insert 0, .insert 3]] := by decide
 
 end GrmVerif.C06
